@@ -229,6 +229,28 @@ PROPS = {
         "level_text": "Random histories with exact virtual timestamps; counterexample search, not proof.",
         "level_note": "Trusts testing/synctest, the in-memory Conn and the greedy matching (optimal for equal-length windows).",
     },
+    "C08": {
+        "pkg": "internal/corerad",
+        "files": ["corerad/zz_verif_C12_test.go", "corerad/zz_verif_sim_test.go", "corerad/zz_verif_adv_test.go", "corerad/zz_verif_C06_test.go", "corerad/zz_verif_C08_test.go"],
+        "run": "TestVerif_C08",
+        "level": "exploration",
+        "bubble": True,
+        "quick": {"shards": 8},
+        "thorough": {"shards": 16},
+        "rule": ("a real Advertiser.Run in a synctest bubble with a generated backlog at the stop instant: solicitations 0 ns..3 s before (or exactly at) "
+                 "the stop, from unicast sources and ::, bursts up to 20, transmit latency 0..2 s per destination class, state-read latency, stop "
+                 "instants at 0, 1 ns, 3 s-1 ns, 3 s, 3 s+1 ns and random, terminate/reload, configured lifetime 1800 s or 0; exhaustive matrix {idle, "
+                 "response pending, multicast pending, unicast in flight, multicast in flight, RS at the stop instant} x {terminate, reload} x latency "
+                 "{0, 1 ms, 700 ms} x lifetime {1800, 0}. The world is kept alive 10 virtual minutes after Run returned. Oracle: Run returns nil no later "
+                 "than stop + remaining in-flight latencies + final RA (never waits for a pending delay); terminate => exactly one zero-lifetime RA to "
+                 "ff02::1, equal to the normal RA otherwise, no write starts after it and none is still in flight when it starts; reload => none; no "
+                 "write starts or completes after Run returned. Non-trivial: a transmission in flight at the stop instant or a solicitation read less "
+                 "than 3 s before it. Distinct: FNV-64 of the canonical JSON scenario."),
+        "assumptions": [STAGED, BUBBLE, FAKES, "unicast_only, dial failures and forwarding-off are excluded here (they make the final RA unidentifiable or impossible); goroutine order at one instant is sampled"],
+        "technique": "rapid property-based testing + exhaustive situation matrix on virtual time (testing/synctest); ordering invariants over the write start/completion log",
+        "level_text": "Generated stop instants against generated backlogs with exact timestamps; counterexample search, not proof.",
+        "level_note": "Trusts testing/synctest and the in-memory Conn's scripted latencies.",
+    },
 }
 
 NOT_APPLICABLE = {}
